@@ -60,6 +60,56 @@ mod util;
 type Inode = u64;
 type Handle = u64;
 
+/// Verification hook (H1): deterministic-scheduler yield points in `do_lookup`/`forget_one`.
+#[cfg(fuse_backend_rs_verif)]
+mod verif_hook {
+    use std::sync::{Arc, RwLock};
+
+    /// Callback type invoked at every yield point with the point number.
+    pub type YieldFn = Arc<dyn Fn(u32) + Send + Sync>;
+
+    static YIELD_CB: RwLock<Option<YieldFn>> = RwLock::new(None);
+
+    /// `do_lookup`: entry, before anything is read.
+    pub const L_START: u32 = 1;
+    /// `do_lookup`: top of the search loop, before probing the inode map.
+    pub const L_PROBE: u32 = 2;
+    /// `do_lookup`: after a probe hit, before loading the count.
+    pub const L_HIT: u32 = 3;
+    /// `do_lookup`: between the count load and the compare-exchange.
+    pub const L_LOADED: u32 = 4;
+    /// `do_lookup`: before taking the inode map write lock (insert path).
+    pub const L_PRELOCK: u32 = 5;
+    /// `forget`/`batch_forget`: before taking the inode map write lock.
+    pub const F_PRELOCK: u32 = 6;
+    /// `forget_one`: entry (the caller holds the write lock).
+    pub const FO_ENTER: u32 = 7;
+    /// `forget_one`: between the count load and the compare-exchange.
+    pub const FO_LOADED: u32 = 8;
+    /// `forget_one`: after the count reached zero, before the entry is removed.
+    pub const FO_ZERO: u32 = 9;
+
+    /// Install (or remove) the scheduler callback. Without a callback every yield is a no-op.
+    pub fn verif_set_yield(cb: Option<YieldFn>) {
+        *YIELD_CB.write().unwrap() = cb;
+    }
+
+    pub(super) fn verif_yield(point: u32) {
+        let cb = YIELD_CB.read().unwrap().clone();
+        if let Some(cb) = cb {
+            cb(point)
+        }
+    }
+}
+#[cfg(fuse_backend_rs_verif)]
+pub use self::verif_hook::{verif_set_yield, YieldFn as VerifYieldFn};
+#[cfg(fuse_backend_rs_verif)]
+pub use self::verif_hook::{
+    FO_ENTER as VERIF_FO_ENTER, FO_LOADED as VERIF_FO_LOADED, FO_ZERO as VERIF_FO_ZERO,
+    F_PRELOCK as VERIF_F_PRELOCK, L_HIT as VERIF_L_HIT, L_LOADED as VERIF_L_LOADED,
+    L_PRELOCK as VERIF_L_PRELOCK, L_PROBE as VERIF_L_PROBE, L_START as VERIF_L_START,
+};
+
 /// Maximum host inode number supported by passthroughfs
 const MAX_HOST_INO: u64 = 0x7fff_ffff_ffff;
 
@@ -663,6 +713,8 @@ impl<S: BitmapSlice + Send + Sync> PassthroughFs<S> {
     }
 
     fn do_lookup(&self, parent: Inode, name: &CStr) -> io::Result<Entry> {
+        #[cfg(fuse_backend_rs_verif)]
+        verif_hook::verif_yield(verif_hook::L_START);
         let name =
             if parent == fuse::ROOT_ID && name.to_bytes_with_nul().starts_with(PARENT_DIR_CSTR) {
                 // Safe as this is a constant value and a valid C string.
@@ -678,15 +730,21 @@ impl<S: BitmapSlice + Send + Sync> PassthroughFs<S> {
 
         let mut found = None;
         'search: loop {
+            #[cfg(fuse_backend_rs_verif)]
+            verif_hook::verif_yield(verif_hook::L_PROBE);
             match self.inode_map.get_alt(&id, handle_opt.as_ref()) {
                 // No existing entry found
                 None => break 'search,
                 Some(data) => {
+                    #[cfg(fuse_backend_rs_verif)]
+                    verif_hook::verif_yield(verif_hook::L_HIT);
                     let curr = data.refcount.load(Ordering::Acquire);
                     // forgot_one() has just destroyed the entry, retry...
                     if curr == 0 {
                         continue 'search;
                     }
+                    #[cfg(fuse_backend_rs_verif)]
+                    verif_hook::verif_yield(verif_hook::L_LOADED);
 
                     // Saturating add to avoid integer overflow, it's not realistic to saturate u64.
                     let new = curr.saturating_add(1);
@@ -713,6 +771,8 @@ impl<S: BitmapSlice + Send + Sync> PassthroughFs<S> {
                 InodeHandle::File(path_fd)
             };
 
+            #[cfg(fuse_backend_rs_verif)]
+            verif_hook::verif_yield(verif_hook::L_PRELOCK);
             // Write guard get_alt_locked() and insert_lock() to avoid race conditions.
             let mut inodes = self.inode_map.get_map_mut();
 
@@ -775,6 +835,8 @@ impl<S: BitmapSlice + Send + Sync> PassthroughFs<S> {
     }
 
     fn forget_one(&self, inodes: &mut InodeStore, inode: Inode, count: u64) {
+        #[cfg(fuse_backend_rs_verif)]
+        verif_hook::verif_yield(verif_hook::FO_ENTER);
         // ROOT_ID should not be forgotten, or we're not able to access to files any more.
         if inode == fuse::ROOT_ID {
             return;
@@ -787,6 +849,8 @@ impl<S: BitmapSlice + Send + Sync> PassthroughFs<S> {
             // to loop here until we can decrement successfully.
             loop {
                 let curr = data.refcount.load(Ordering::Acquire);
+                #[cfg(fuse_backend_rs_verif)]
+                verif_hook::verif_yield(verif_hook::FO_LOADED);
 
                 // Saturating sub because it doesn't make sense for a refcount to go below zero and
                 // we don't want misbehaving clients to cause integer overflow.
@@ -799,6 +863,8 @@ impl<S: BitmapSlice + Send + Sync> PassthroughFs<S> {
                     .is_ok()
                 {
                     if new == 0 {
+                        #[cfg(fuse_backend_rs_verif)]
+                        verif_hook::verif_yield(verif_hook::FO_ZERO);
                         // We just removed the last refcount for this inode.
                         // The allocated inode number should be kept in the map when use_host_ino
                         // is false or host inode(don't use the virtual 56bit inode) is bigger than MAX_HOST_INO.
